@@ -26,6 +26,7 @@ INVALID = ["first-connected", "second-connected", "both-connected", "repeat", "r
 
 def run_sequence(ctx, comps, ops, replay):
     L = impl.lk()
+    comps = [dict(c) for c in comps]          # valid put() calls append the components they place
     spec = wiring.Spec(comps)
     real = wiring.Real(comps)
     executed = []
@@ -88,6 +89,28 @@ def run_sequence(ctx, comps, ops, replay):
                 else:
                     real.sol.connect(real.sts[a], p, real.sts[b], q)
                 spec.connect(a, p, b, q)
+            elif k == "put":
+                # a valid put(): a fresh two-port (sometimes wrapped in a sub-solver) placed onto a free pin of a present structure -
+                # the accepted branch of the call whose rejected branches are among the invalid kinds
+                c, i = op[1], op[2]
+                if c not in spec.present or not comps[c]["pins"] or len(comps) >= 8:
+                    continue
+                p = comps[c]["pins"][i % len(comps[c]["pins"])]
+                if (c, p) not in spec.free() or (c, p) in spec.mapping.values():
+                    continue
+                newc = len(comps)
+                import random as _random
+                S2 = gen.contractive(_random.Random(newc * 7919 + i * 31 + len(executed)), 2)
+                un, vn = f"u{newc}", f"v{newc}"
+                comps.append({"pins": [un, vn], "idx": [0, 1], "S": S2})
+                m = L.Model(pin_dic={L.Pin(un): 0, L.Pin(vn): 1}, Smatrix=gen.mat_np(S2, 2, 2))
+                executed.append(("put", newc, un, c, p))
+                with real.sol:
+                    st = m.put(un if i % 2 else L.Pin(un), (real.sts[c], p if i % 4 < 2 else L.Pin(p)))
+                real.sts.append(st)
+                spec.pins[newc] = [un, vn]
+                spec.add(newc)
+                spec.connect(newc, un, c, p)
             elif k == "setparam":
                 executed.append(op)
                 real.sol.set_param("pq", op[1])
@@ -247,6 +270,8 @@ def gen_ops(rng, ncomp, n):
             ops.append(("setparam", rng.randint(1, 9) / 10))
         elif r < 0.16:
             ops.append(("add", rng.randrange(ncomp)))
+        elif r < 0.24:
+            ops.append(("put", rng.randrange(ncomp), rng.randrange(8)))
         elif r < 0.55:
             op = ("connect", rng.randrange(ncomp), rng.randrange(3), rng.randrange(ncomp), rng.randrange(3))
             if rng.random() < 0.3:
